@@ -172,7 +172,7 @@ func (c *SimPacketConn) IsClosed() bool {
 		return false
 	}
 }
-func (c *SimPacketConn) LocalAddr() net.Addr              { return c.local }
+func (c *SimPacketConn) LocalAddr() net.Addr              { return copyAddr(c.local) }
 func (c *SimPacketConn) SetDeadline(time.Time) error      { return nil }
 func (c *SimPacketConn) SetReadDeadline(time.Time) error  { return nil }
 func (c *SimPacketConn) SetWriteDeadline(time.Time) error { return nil }
@@ -239,7 +239,7 @@ func (l *SimListener) Close() error {
 	}
 	return nil
 }
-func (l *SimListener) Addr() net.Addr { return l.local }
+func (l *SimListener) Addr() net.Addr { return copyAddr(l.local) }
 func (l *SimListener) IsClosed() bool {
 	select {
 	case <-l.closed:
@@ -336,3 +336,14 @@ func (s *SimStream) SetReadDeadline(time.Time) error  { return nil }
 func (s *SimStream) SetWriteDeadline(time.Time) error { return nil }
 
 var ErrSimInjected = os.ErrDeadlineExceeded
+
+// copyAddr mimics the real sockets, whose LocalAddr returns a fresh address object each time.
+func copyAddr(a net.Addr) net.Addr {
+	switch x := a.(type) {
+	case *net.UDPAddr:
+		return &net.UDPAddr{IP: append(net.IP{}, x.IP...), Port: x.Port, Zone: x.Zone}
+	case *net.TCPAddr:
+		return &net.TCPAddr{IP: append(net.IP{}, x.IP...), Port: x.Port, Zone: x.Zone}
+	}
+	return a
+}
